@@ -84,7 +84,7 @@ func (r *vwReadable) Read(p []byte) (int, error) {
 	return n, nil
 }
 func (r *vwReadable) Seek(off int64, whence int) (int64, error) { r.pos = off; return off, nil }
-func (r *vwReadable) Close() error                               { return nil }
+func (r *vwReadable) Close() error                              { return nil }
 
 // chunked hands out at most n bytes per Read
 type vwChunked struct {
@@ -302,6 +302,25 @@ func vwGen(r *gen.Rand) vwCase {
 			f.beg = int64(1 + r.Intn(5000))
 			f.end = f.beg + ln
 			f.size = f.end
+		}
+		if i > 0 && r.Chance(1, 4) {
+			// another slice of the SAME file as the part before it, not adjacent to it (holes filled after an
+			// interrupted transfer; parts swapped by Remove): same name, version and content, other range
+			p := c.files[i-1]
+			var nb, ne int64 = -1, -1
+			if p.beg >= 2 && r.Chance(1, 2) {
+				ne = 1 + int64(r.Intn(int(p.beg-1))) // ends before the previous part begins, with a gap
+				nb = int64(r.Intn(int(ne)))
+			} else if p.end+1 < p.size {
+				nb = p.end + 1 + int64(r.Intn(int(p.size-p.end-1)))
+				ne = nb + 1 + int64(r.Intn(int(p.size-nb)))
+			}
+			if nb >= 0 && ne > nb && ne <= p.size && ne-nb <= 5000 {
+				cp := *p
+				f = &cp
+				f.alloc = false
+				f.beg, f.end = nb, ne
+			}
 		}
 		if r.Chance(1, 30) {
 			f.beg += 1 << 33 // offsets beyond 32 bits
